@@ -7,6 +7,7 @@ import GfsModel.Expected
 import GfsGen.Facts
 import GfsProofs.HandlesLemmas
 import GfsProofs.XorshiftLemmas
+import GfsModel.ExpectedSrc
 
 namespace Gfs.Props.C20
 open Gfs.Handles Gfs.Xorshift Gfs.Proofs
@@ -59,5 +60,10 @@ theorem C20_stale_noop (t : Table) (id : Id) (h : lookup t id = none) :
 /-- the statement skeleton of both handle maps, re-extracted from storage.go on this run, is
     the one the model's actions were written from (and the two copies agree) -/
 theorem C20_skeleton : Gfs.Gen.handleSkeleton = Gfs.expectedHandleSkeleton := by decide
+
+/-- the declarations of /repo this property's model and specification were written from are,
+    on this run, the ones the model was last aligned with (digest of their comment- and
+    layout-insensitive fingerprints, re-extracted by tools/gofacts) -/
+theorem C20_source : Gfs.Gen.sourceDigestC20 = Gfs.expectedSourceDigestC20 := by decide
 
 end Gfs.Props.C20
